@@ -141,8 +141,20 @@ def run_det_family(prop, tier, seed):
                "with at least one context switch")
     ev.assumptions = ["SC interleavings", "hash-map order is explored through the patched foldhash seed "
                       "(hashbrown maps); std RandomState maps are left to the OS"]
-    jobs = [{"prop": prop, "seed": seed, "index": i, "tier": tier, "schedules": nsched}
-            for i in range(nwl)]
+    twin = False
+    if tier == "thorough":
+        # Model validation + real schedules: build the production twin (real rayon, no hooks) from
+        # /repo and link every third class with it too (see family_det).
+        import subprocess
+        if subprocess.run([os.path.join(common.VERIF, "checks", "build_twin.sh")]).returncode != 0:
+            raise HarnessError("twin build failed")
+        twin = True
+        ev.rule += (" In the thorough tier every third class is also linked three times by the "
+                    "production twin of the same tree (real rayon, threads 4/1/8): real outputs must "
+                    "equal each other (else C06 violation) and the simulated output (else harness "
+                    "error: the model misrepresents wild).")
+    jobs = [{"prop": prop, "seed": seed, "index": i, "tier": tier, "schedules": nsched,
+             "twin": twin and i % 3 == 0} for i in range(nwl)]
     violations = _collect(prop, ev, pool_imap(family_det.run_job, jobs))
     violations += _add_real_family(prop, tier, seed, ev)
     if ev.counters.get("class_never_linked", 0) > nwl // 4:
@@ -423,7 +435,8 @@ def run(prop, tier, seed):
 FAMILY_MODULES = {"graph": "family_graph", "str": "family_str", "arch": "family_arch",
                    "det": "family_det", "err": "family_err", "fs": "family_fs", "mut": "family_mut",
                    "js": "family_js", "relink": "family_relink", "real": "family_real", "conc": "family_conc"}
-MINIMISABLE = ("graph", "str", "arch")
+MINIMISABLE = ("graph", "str", "arch", "fs", "mut", "js")
+SCENARIO_FAMILIES = ("fs", "mut", "js")  # the decision list travels inside job["scenario"]
 
 
 def _family(fam):
@@ -448,7 +461,10 @@ def minimise(v, budget=160):
     def fails(decisions):
         j = dict(job)
         if decisions is not None:
-            j["decisions"] = decisions
+            if fam in SCENARIO_FAMILIES:
+                j["scenario"] = dict(j["scenario"], decisions=decisions)
+            else:
+                j["decisions"] = decisions
         j["want_decisions"] = True
         res = mod.run_job(j)
         ok = any(x["prop"] == v.prop and x["signature"] == v.signature for x in res["violations"])
@@ -488,7 +504,10 @@ def minimise(v, budget=160):
         cur.pop()
     out = dict(rp)
     out["job"] = dict(job)
-    out["job"]["decisions"] = cur
+    if fam in SCENARIO_FAMILIES:
+        out["job"]["scenario"] = dict(job["scenario"], decisions=cur)
+    else:
+        out["job"]["decisions"] = cur
     out["minimised"] = {"decisions_before": len(base), "nonzero_before": sum(1 for x in base if x),
                         "nonzero_after": sum(1 for x in cur if x), "reruns": used}
     return out
